@@ -14,6 +14,15 @@ fn verif_replay() {
     let case: serde_json::Value = serde_json::from_str(&std::fs::read_to_string(path).unwrap()).unwrap();
     let a = case["args"].clone();
     let version = a["version"].as_u64().unwrap_or(5);
+    if case["driver"].as_str() == Some("features") {
+        // what a configured SOCKS connector of this version says it can carry (the dispatcher refuses a request whose feature the
+        // selected connector does not list -- before any upstream connection is opened)
+        let yaml = format!("name: s\ntype: socks\nserver: 127.0.0.1\nport: 1080\nversion: {}\n", version);
+        let conn: SocksConnector = serde_yaml::from_str(&yaml).unwrap();
+        println!("VERIF-OUTCOME {}", serde_json::json!({"panicked": false, "version": version, "tcp": conn.has_feature(Feature::TcpForward),
+                 "udp_forward": conn.has_feature(Feature::UdpForward), "udp_bind": conn.has_feature(Feature::UdpBind)}));
+        return;
+    }
     let reply = unhex(a["upstream_reply"].as_str().unwrap_or(""));
     let rt = tokio::runtime::Builder::new_current_thread().enable_all().build().unwrap();
     let out = rt.block_on(async move {
